@@ -184,10 +184,38 @@ class Repo:
             for child in _defs(node):
                 if child.name == part:
                     found = child  # last definition wins, as in Python
+            if found is None and isinstance(node, ast.ClassDef):
+                found = self._inherited(parts[0], node, part)       # a method the class inherits from a base in the repository
             if found is None:
                 raise AnchorMissing(f"{qual} (no definition of {part!r})")
             node = found
         return node
+
+    def _inherited(self, module: str, cls: ast.ClassDef, name: str, depth: int = 0):
+        if depth > 4:
+            return None
+        for b in cls.bases:
+            bname = ast.unparse(b).split(".")[-1]
+            for mname in [module] + [m for m in self.modules if m != module]:
+                base = next((c for c in _defs(self.modules[mname].tree) if isinstance(c, ast.ClassDef) and c.name == bname), None)
+                if base is None:
+                    continue
+                hit = None
+                for child in _defs(base):
+                    if child.name == name:
+                        hit = child
+                return hit if hit is not None else self._inherited(mname, base, name, depth + 1)
+        return None
+
+    def defining_qual(self, qual: str) -> str:
+        """Qualified name of the definition a (possibly inherited) method name resolves to."""
+        node = self.lookup(qual)
+        parent = getattr(node, "_parent", None)
+        if isinstance(parent, ast.ClassDef):
+            for mname, mod in self.modules.items():
+                if any(c is parent for c in _defs(mod.tree)):
+                    return f"{mname}.{parent.name}.{node.name}"
+        return qual
 
     def func(self, qual: str) -> ast.FunctionDef:
         node = self.lookup(qual)
